@@ -5,7 +5,7 @@ import json, os, subprocess
 ROOT = os.path.dirname(os.path.dirname(os.path.abspath(__file__)))
 PROPS = [json.loads(l)["id"] for l in open(os.path.join(ROOT, "properties.jsonl"))]
 
-HOOK_COMMITS = []   # filled as hooks are added to /repo
+HOOK_COMMITS = ["d458cd0"]   # filled as hooks are added to /repo
 
 CHECKS = {
     "C03": dict(
@@ -75,6 +75,56 @@ CHECKS["C11"] = dict(
     note="Alpha-equivalence is equality of de Bruijn forms. Evaluation-equivalence follows from structural equality and is not "
          "re-run. The parser's text interner is not covered.",
     technique="TLA+ reference semantics of binding + transcribed converter checked by TLC; exhaustive replay into the real converters")
+
+CHECKS["C01"] = dict(
+    category="model_checking",
+    text="Aiken.tla states the source semantics (values, Data encoding of every serialisable type, patterns, a strict first-match "
+         "definitional interpreter with no notion of lowering). A seeded typed generator produces whole modules (ADTs incl. generic "
+         "and recursive, records, tuples, pairs, lists, Option, lambdas, higher-order and mutually recursive helpers, when/if/let/"
+         "expect, casts from and to Data, pipes, and/or blocks); the real parser, checker, code generator, optimiser and machine run "
+         "them on Data arguments and every run is one event of a trace that the TLA+ trace specification Obs_Aiken accepts iff the "
+         "observed value / abort is Eval's. TLC additionally enumerates operator families exhaustively (MC_AikenExpr: arithmetic "
+         "incl. all floor division / modulo sign cases and division by zero, short-circuit && / || / and / or over aborting "
+         "operands, comparisons, let strictness) on an argument grid and every (expression, argument) pair is replayed.",
+    design_ref="DESIGN.md section 6 C01, section 4.6",
+    note="Trusted: my reading of the language semantics; the python renderer (every rendered module is re-checked by the real type "
+         "checker under its annotations). Strings only in trace; integers small; recursion fuel 60; programs the spec cannot judge "
+         "are skipped and counted.",
+    technique="TLA+ definitional interpreter of Aiken source; trace validation of compiled-code runs by TLC; TLC-enumerated "
+              "expression families replayed through the real compiler")
+CHECKS["C02"] = dict(
+    category="translation_validation",
+    text="A cfg-guarded hook records the program handed to aiken_optimize_and_intern. For every generated well-typed module under "
+         "silent and verbose tracing, the pre-optimisation program, the program after each of the 8 optimiser stages (replayed "
+         "through the public pass functions; the replay must reproduce the real output bit for bit) and the final program are "
+         "evaluated on the same arguments and must all agree (same value, or all fail); a panic anywhere is a violation. The "
+         "pre-optimisation runs are additionally validated against Aiken.tla by Obs_Aiken, so the chain is anchored at the source "
+         "semantics.",
+    design_ref="DESIGN.md section 6 C02",
+    note="The `__no_inline__` marker lambdas the code generator leaves for the optimiser are erased before an intermediate program "
+         "is evaluated (they are never applied; clean_up_no_inlines erases them). Both sides are evaluated by the real machine. "
+         "Optimizer.tla (rule-level model) is not built.",
+    technique="translation validation of (pre, every stage, post) program chains recorded through a hook; pre-optimisation runs "
+              "validated against the TLA+ source semantics")
+CHECKS["C06"] = dict(
+    category="model_checking",
+    text="Every module the real checker accepts is run on conforming arguments under silent and verbose tracing; Obs_Aiken (Aiken.tla) "
+         "decides the expected outcome, so a failure must be one the source asks for, and any structural machine error class "
+         "(TypeMismatch, NonFunctionalApplication, NonPolymorphicInstantiation, OpenTermEvaluated, MissingCaseBranch, NotAConstant...) "
+         "is a violation. A family of single-rule ill-typed mutants must be rejected by the checker.",
+    design_ref="DESIGN.md section 6 C06",
+    note="Type soundness of Aiken.tla itself is evidenced by the spec never getting stuck on accepted programs (stuck = 'unknown', "
+         "counted). The reject side covers only the listed typing rules.",
+    technique="trace validation of compiled runs against the TLA+ source semantics + error-class monitor + ill-typed mutants")
+CHECKS["C14"] = dict(
+    category="model_checking",
+    text="Aiken.tla's Eval has no tracing parameter. Each generated module is type-checked and compiled under all 9 Tracing values "
+         "(3 scopes x 3 levels) and run on the same inputs: every run must be accepted by Obs_Aiken (equal to Eval) and the 9 runs of "
+         "each (program, input) must agree with each other.",
+    design_ref="DESIGN.md section 6 C14",
+    note="Trace arguments are literals in the generated programs; the compiler's erasure of trace-argument evaluation under "
+         "compact/silent (DESIGN.md section 7 #12) is not yet exercised by this check.",
+    technique="TLA+ source semantics without a tracing parameter; trace validation of runs under all 9 tracing settings")
 
 NOT_BUILT = "not built yet (machinery under construction, see DESIGN.md section 10)"
 
